@@ -247,7 +247,7 @@ fn wt_clone() {
     let d = c.clone();
     let (w, m, wf) = d.verif_check();
     assert!(wf, "[C03.wf][C16.wf] a cloned WTinyLFUCache is well formed");
-    assert!(w == pre.window && m == pre.main, "[C16.contents][C16.order][C17.maporder] a clone has the same capacities, contents, values and recency order in every segment");
+    assert!(w == pre.window && m == pre.main, "[C16.contents][C16.order][C17.maporder][C01.cap] a clone has the same capacities, contents, values and recency order in every segment");
     assert!(d.verif_estimator().verif_abs() == e0, "[C16.estimator] a clone has the same estimator state");
     let (w2, m2, wf2) = c.verif_check();
     assert!(wf2 && w2 == pre.window && m2 == pre.main && c.verif_estimator().verif_abs() == e0, "[C16.independent][C13.readonly] cloning leaves the original unchanged");
